@@ -248,6 +248,32 @@ func (w *world) flushData(crashAfterCommit bool) {
 	w.afterFlush(filesBefore, crashAfterCommit, img)
 }
 
+// otherHour: a write into another hour of the same day - a data family (and kv family of the day's store) that did not
+// exist before the last restart - flushed at once. It shares nothing with the family under test but the kv store and its
+// manifest; the model does not see it (only the metadata flush that precedes the data flush is an event).
+func (w *world) otherHour() {
+	hour := int64(1 + w.kinds["Restart"]%5)
+	fam, err := w.n.Shard.GetOrCrateDataFamily(familyTime + hour*3600000)
+	if err != nil {
+		w.fail("other hour: family", err)
+		return
+	}
+	rows := node.Rows("ns", "otherhour", map[string]string{"host": "o"}, map[string]float64{"f1": 1}, familyTime+hour*3600000+5000)
+	if err := fam.WriteRows(rows); err != nil {
+		w.fail("other hour: write", err)
+		return
+	}
+	if err := w.n.FlushMetaAndIndex(); err != nil {
+		w.fail("meta/index flush", err)
+		return
+	}
+	w.emit("MetaFlush")
+	if err := fam.Flush(); err != nil {
+		w.fail("other hour: flush", err)
+	}
+	w.out.Count("other-hour-family-flushed")
+}
+
 func (w *world) finishPendingFlush() {
 	if w.pendingFlush == nil {
 		return
@@ -396,6 +422,10 @@ func runHistory(out *vh.Out, root string, id int, name, sig string, disc bool, s
 			if w.actor == nil {
 				w.crashRestart()
 			}
+		case "o":
+			if w.actor == nil && w.pendingFlush == nil {
+				w.otherHour()
+			}
 		}
 	}
 	// drain a replica step in progress
@@ -460,8 +490,11 @@ func randomScript(r *vh.Rand) []string {
 			sc = append(sc, "m", "F")
 		case x < 86:
 			sc = append(sc, "m")
-		case x < 90:
+		case x < 89:
 			sc = append(sc, "s")
+		case x < 91:
+			// another hour of the day gets its first write (new kv family in the reopened day store) and is flushed
+			sc = append(sc, "o")
 		case x < 93:
 			// the family keeps the callbacks of every replicator ever registered; a rebuilt partition is followed by a
 			// crash here, so that only the live replicator acknowledges (see DESIGN, C07)
@@ -484,6 +517,11 @@ func main() {
 	}
 	defer os.RemoveAll(root)
 	f := strings.Fields
+	if sc := os.Getenv("C07_SCRIPT"); sc != "" { // debugging aid: one script only
+		runHistory(out, root, 0, "debug", "", true, f(sc))
+		out.Finish()
+		return
+	}
 	runHistory(out, root, 0, "crash at every stage of a flush, sync, replay", "", true, f("a a r r m F r r a r m f s x r a A r m f s a r b x r a r m f a r b x"))
 	runHistory(out, root, 1, "a flush freezes the memory database while a replica step holds it (lost write)", "flush-inside-replica-step-lost-write", true,
 		f("a a a r m r1 f r2 r3 r m f"))
@@ -491,10 +529,14 @@ func main() {
 		f("a a r m r1 r2 f r3 x r m f"))
 	runHistory(out, root, 3, "a new metric is written after the metadata flush and before the data flush", "new-name-between-meta-and-data-flush", false,
 		f("a r m A r f x A r"))
+	runHistory(out, root, 5, "another hour of the day is first written after a restart, flushed, then another restart", "", true,
+		f("a a r r m f a a r x r r o a r m f x r a r o m f x"))
+	runHistory(out, root, 6, "two families of the shard get their memory databases at the same moment; the other one is flushed first", "", true,
+		f("a r m f x a r o m f x a r o a r m f"))
 	runHistory(out, root, 4, "entries the replicator cannot decode, between applied entries, directly after the acknowledged position, before a crash", "", true,
 		f("a a z a r r r r x r r r r m f z r s x a z z a r r r r m f s x"))
 	for i := 0; i < cfg.N; i++ {
-		runHistory(out, root, 5+i, "random", "", true, randomScript(r))
+		runHistory(out, root, 7+i, "random", "", true, randomScript(r))
 	}
 	out.Notes = append(out.Notes, "every history ends with a crash image, a replay of everything the log still offers, and a flush in the flush checker's order; a crash is a copy of the node directory (tsdb + wal) opened as a new node")
 	out.Finish()
